@@ -22,7 +22,6 @@ import json
 import random
 import time
 
-import c11_peg
 import c11_refparse
 import common
 import mcnpref
@@ -80,16 +79,11 @@ FP_P = 2147483647
 
 # ---- implementation side --------------------------------------------------
 
-def impl_get_ast(text, plain=False):
-    '''('ok', tree) | ('err', 'EParse'|'EAttribute').  plain: parse with the
-    shared shim instead of its memoising subclass (cross check).'''
+def impl_get_ast(text):
+    '''('ok', tree) | ('err', 'EParse'|'EAttribute')'''
+    import MIP.geom.parsegeom as pg
     import tatsu.exceptions
-    pg, plain_parser = c11_peg.install()
     try:
-        if plain:
-            from MIP.geom.semantics import GeomSemantics
-            return ('ok', canon(plain_parser.parse(
-                pg.normalize(text), semantics=GeomSemantics())))
         return ('ok', canon(pg.get_ast(text)))
     except tatsu.exceptions.ParseException:
         return ('err', 'EParse')
@@ -673,20 +667,6 @@ def run(res, tier, seed, proofs_ok):
                           f'{out[1]}',
                           {'input': {'text': text}, 'observed': out},
                           found_input=True)
-    # the memoising parser used here against the shared shim
-    n_cross, n_diff = 0, 0
-    for text in itertools.chain((t for t, _ in CORPUS),
-                                (t for t, _ in CORPUS_KNOWN),
-                                strings_upto('', 4)):
-        n_cross += 1
-        if impl_get_ast(text) != impl_get_ast(text, plain=True):
-            n_diff += 1
-            res.violation('harness-error',
-                          f'c11_peg.FastParser and shim_peg.Parser differ on '
-                          f'{text!r}', {'input': {'text': text}},
-                          found_input=False)
-    res.obligation(f'harness: memoising PEG = shared shim on {n_cross} texts',
-                   n_diff == 0, f'{n_diff} differ')
     timings['corpus'] = time.time() - t0
 
     # ---- 2. exhaustive parse tie by fingerprints -------------------------
